@@ -557,7 +557,7 @@ def run_job(job, ndiff):
             for sd in range(base, base + ndiff):
                 rc1, o1, e1 = job.run_native(ng, seed=sd)
                 rc2, o2, e2 = job.run_native(nr, seed=sd)
-                if rc1 == 77 and rc2 == 77:
+                if rc1 == 77:   # the generated-C run left the model's domain (a stated model bound / harness assumption): nothing to compare
                     continue
                 if True:
                     if norm_out(o1, job.h.get('diff_unordered')) != norm_out(o2, job.h.get('diff_unordered')) or (rc1 != rc2 and not (rc2 == 66)):
@@ -655,6 +655,10 @@ def main():
         if a.only and a.only != hname:
             continue
         vs = h.get('variants', {}).get(tier) or h.get('variants', {}).get('quick') or [{}]
+        if tier == 'thorough':   # the thorough tier contains the quick tier
+            qn = h.get('variants', {}).get('quick', [])
+            names = {v.get('name') for v in vs}
+            vs = [v for v in qn if v.get('name') not in names] + list(vs)
         for i, var in enumerate(vs):
             if 'props' in var and a.prop not in var['props'] and a.prop != 'ALL':
                 continue
